@@ -3,11 +3,54 @@
 The plan is a seeded history of snapshots, process events in any order, forced events, removals, additions,
 losses (crash, silence, stealth restart) and hostile messages (spoofed / mismatching origins, messages from isolated
 or not yet admitted peers)."""
+import os
+
 from . import gen
 
 STATES = [0, 10, 20, 30, 40, 100, 200, 1000]
 # what Supervisor itself would produce after each state
 NEXT_LEGAL = {0: [10], 10: [20, 30, 40], 20: [40, 100], 30: [10, 200], 40: [0], 100: [10], 200: [10], 1000: [10]}
+
+
+HOSTILE = [
+    '__import__("os").system("touch %(canary)s")', 'os.system("touch %(canary)s")', 'open("%(canary)s", "w")',
+    'all()', 'any()', 'any("%(p)s", "x")', 'all("%(p)s", key=1)', '"%(n)s" if "%(n)s" else "%(n)s"', '1', 'True', 'None',
+    '"("', 'any("[")', 'import os', '"%(n)s"; "%(n)s"', 'lambda: "%(n)s"', '[x for x in "%(n)s"]', '"%(n)s" + "%(n)s"',
+    '"%(n)s" == "%(n)s"', 'not not "%(n)s"', 'any(all("%(p)s"))', 'all(["%(n)s", "%(n)s"])', '"%(n)s".upper()', 'any(x)',
+    'f"{1}"', '-"%(n)s"', 'any(*"ab")', '(x := "%(n)s")', 'all("%(p)s") and', '', ' ', '"nomatch"', 'any("nomatch.*")',
+    '"%(p)s"', 'not "%(p)s"', '"%(p)s" and "%(n)s"', 'exec("open(\'%(canary)s\', \'w\')")', 'x = "%(n)s"',
+    'del x', 'pass', 'any(("%(n)s"))', 'all(not "%(n)s")', 'b"%(n)s"', '("%(n)s",)', 'any.__call__("%(p)s")',
+    '(lambda f: f("%(p)s"))(any)', 'not(any("%(p)s") or "%(n)s") and all(".*")',
+]
+
+
+def gen_formula(rng, names, canary):
+    """ A well-formed, ill-formed or hostile operational_status formula over the process names of an application. """
+    prefix = os.path.commonprefix(names) if names else 'x'
+    patterns = ['.*', prefix + '.*', (prefix[:-1] or 'p') + '[a-z0-9_]*', 'nomatch.*'] + [n[:-1] + '.' for n in names[:2]]
+    if rng.random() < prof_hostile_rate:
+        return gen.pick(rng, HOSTILE) % {'canary': canary, 'n': gen.pick(rng, names), 'p': gen.pick(rng, patterns)}
+
+    def tree(depth):
+        r = rng.random()
+        if depth <= 0 or r < 0.3:
+            q = gen.pick(rng, ['"', "'"])
+            r2 = rng.random()
+            if r2 < 0.5:
+                return q + gen.pick(rng, names) + q
+            return '%s(%s%s%s)' % (gen.pick(rng, ['any', 'all']), q, gen.pick(rng, patterns + names), q)
+        if r < 0.45:
+            return 'not ' + tree(depth - 1)
+        if r < 0.55:
+            return '(%s)' % tree(depth - 1)
+        if r < 0.6:
+            return '%s(%s)' % (gen.pick(rng, ['any', 'all']), tree(depth - 1))
+        op = gen.pick(rng, [' and ', ' or '])
+        return op.join(tree(depth - 1) for _ in range(rng.randint(2, 3)))
+    return tree(rng.randint(0, 3))
+
+
+prof_hostile_rate = 0.4
 
 
 def build(prop, seed, prof):
@@ -35,6 +78,12 @@ def build(prop, seed, prof):
     config = {'nodes': nodes, 'instances': instances, 'supvisors': sv, 'groups': groups, 'rules': rules,
               'children': children, 'latency': {'lo': 0.0002, 'hi': 0.02}}
     namespecs = gen.namespecs_of(config)
+    if prof.get('formulas'):
+        from oracles.appstatus import CANARY
+        for app in rules['applications']:
+            if rng.random() < prof['formulas']:
+                names = [ns.split(':')[1] for ns in namespecs if ns.startswith(app['name'] + ':')]
+                app['operational_status'] = gen_formula(rng, names, CANARY % seed)
     reals = [s['nick'] for s in instances if not s.get('puppet')]
     pups = [s['nick'] for s in instances if s.get('puppet')]
     everyone = reals + pups
@@ -93,7 +142,7 @@ def build(prop, seed, prof):
         item = {'t': round(t, 4), 'p': p}
         claim = None
         if rng.random() < hostile:
-            claim = gen.pick(rng, [x for x in everyone if x != p] + ['mismatch', 'unknown'])
+            claim = gen.pick(rng, [x for x in everyone if x != p] + ['mismatch', 'unknown', 'renamed', 'renamed'])
         if kind == 'event':
             pool = known.get(p) or namespecs
             ns = gen.pick(rng, pool) if rng.random() < 0.95 else gen.pick(rng, namespecs)
